@@ -10,6 +10,7 @@ From TI Require Import model.Iter model.IterSpec proofs.IterProofs proofs.IterPr
 From TI Require Import model.IterWrap proofs.IterWrapProofs.
 From TI Require Import model.IterHash proofs.IterHashProofs.
 From TI Require model.ImgIter model.ImgIterSpec proofs.ImgIterProofs.
+From TI Require model.ImgIterSrc model.ImgIterSrcTie proofs.ImgIterSrcProofs proofs.ImgIterSrcTieProofs.
 Open Scope Z_scope.
 
 (** for a deterministic renderable ([render_det]: the result of [_render_] depends on the
@@ -201,3 +202,100 @@ Theorem C09_py_int_hash_small_inj :
   forall x y, 0 <= x < py_modulus -> 0 <= y < py_modulus -> py_int_hash x = py_int_hash y -> x = y.
 Proof. exact py_int_hash_small_inj. Qed.
 Print Assumptions C09_py_int_hash_small_inj.
+
+(** *** the SOURCE of an image iterator (round 6).  [model/ImgIterSrc.v] is the image iterator with
+    the renderer threading the state of the source it renders from ([render : R -> nat -> Size ->
+    res * R]: the PIL image the iterator holds is an open file of its own for file- and
+    URL-sourced images) and a hook [handover] at the hand-over from the first loop to the cached
+    loops; the code does nothing to its source there ([keep]).  For every source state space,
+    every invariant [P] of the source under which rendering is the pure [fmt_frame] and which
+    the renderer and the hand-over preserve, the caller sees the trace of [model/ImgIter.v] *)
+Theorem C09_imgiter_source_erased :
+  forall (Str Size R : Type) (fmt_frame : nat -> Size -> TI.model.ImgIter.res Str)
+         (render : R -> nat -> Size -> TI.model.ImgIter.res Str * R) (hash : Size -> Z) (N : nat)
+         (cached : bool) (handover : R -> R) (P : R -> Prop),
+    (forall r k z, P r -> fst (render r k z) = fmt_frame k z /\ P (snd (render r k z))) ->
+    (forall r, P r -> P (handover r)) ->
+    forall ops s r, P r ->
+      TI.model.ImgIterSrc.traceS render hash N cached handover s r ops
+      = TI.model.ImgIter.trace fmt_frame hash N cached s ops.
+Proof. exact TI.proofs.ImgIterSrcProofs.src_erase. Qed.
+Print Assumptions C09_imgiter_source_erased.
+
+(** WHAT is rendered WHEN.  [reqs] is the list, operation by operation, of the calls of the
+    renderer (frame number, size).  The non-caching iterator renders exactly what the
+    specification renders ([wants]: the frame it yields, at the size in force, and the probe for
+    the frame past the last one where a pass ends) ... *)
+Theorem C09_imgiter_uncached_requests :
+  forall (Str Size : Type) (fmt_frame : nat -> Size -> TI.model.ImgIter.res Str) (hash : Size -> Z) (N : nat)
+         (repeat pos0 : Z) (z0 : Size) (ops : list (TI.model.ImgIter.op Size)),
+    TI.model.ImgIterSpec.renderer_ok fmt_frame N -> repeat <> 0%Z ->
+    TI.model.ImgIterSrc.reqs fmt_frame hash N false (TI.model.ImgIter.init Str repeat pos0 z0) ops
+    = TI.proofs.ImgIterSrcProofs.wants fmt_frame N (TI.model.ImgIterSpec.sinit repeat pos0 z0) ops.
+Proof. exact TI.proofs.ImgIterSrcProofs.uncached_requests. Qed.
+Print Assumptions C09_imgiter_uncached_requests.
+
+(** ... and in EVERY history — size changes in the first loop or in any later, cached one, seeks,
+    any repeat count — the render requests of the caching iterator are, operation by operation, a
+    sub-list of the render requests of the non-caching iterator: a re-render in a cached loop asks
+    the source for nothing the non-caching iterator does not ask for at the same yield.  So
+    whatever rendering needs (the open source) must be as available in the cached loops as it is
+    to an iterator that has no cache *)
+Theorem C09_imgiter_cached_requests_sub :
+  forall (Str Size : Type) (fmt_frame : nat -> Size -> TI.model.ImgIter.res Str) (hash : Size -> Z) (N : nat)
+         (repeat pos0 : Z) (z0 : Size) (ops : list (TI.model.ImgIter.op Size)),
+    TI.model.ImgIterSpec.renderer_ok fmt_frame N -> repeat <> 0%Z ->
+    TI.model.ImgIterSpec.hash_separates hash (TI.model.ImgIterSpec.sizes_of z0 ops) ->
+    Forall2 (@TI.model.ImgIterSrc.Sub (nat * Size))
+      (TI.model.ImgIterSrc.reqs fmt_frame hash N true (TI.model.ImgIter.init Str repeat pos0 z0) ops)
+      (TI.model.ImgIterSrc.reqs fmt_frame hash N false (TI.model.ImgIter.init Str repeat pos0 z0) ops).
+Proof. exact TI.proofs.ImgIterSrcProofs.cached_requests_sub. Qed.
+Print Assumptions C09_imgiter_cached_requests_sub.
+
+(** a closable source ([file_render]: a render on a closed source fails) that the iterator keeps
+    open until it ends, as the code does: caching is invisible, in every history *)
+Theorem C09_imgiter_kept_source_transparent :
+  forall (Str Size : Type) (fmt_frame : nat -> Size -> TI.model.ImgIter.res Str) (hash : Size -> Z) (N : nat)
+         (repeat pos0 : Z) (z0 : Size) (ops : list (TI.model.ImgIter.op Size)),
+    TI.model.ImgIterSpec.renderer_ok fmt_frame N -> repeat <> 0%Z ->
+    TI.model.ImgIterSpec.hash_separates hash (TI.model.ImgIterSpec.sizes_of z0 ops) ->
+    TI.model.ImgIterSrc.traceS (TI.model.ImgIterSrc.file_render fmt_frame) hash N true
+      (@TI.model.ImgIterSrc.keep bool) (TI.model.ImgIter.init Str repeat pos0 z0) true ops
+    = TI.model.ImgIterSrc.traceS (TI.model.ImgIterSrc.file_render fmt_frame) hash N false
+      (@TI.model.ImgIterSrc.keep bool) (TI.model.ImgIter.init Str repeat pos0 z0) true ops.
+Proof. exact TI.proofs.ImgIterSrcProofs.kept_source_transparent. Qed.
+Print Assumptions C09_imgiter_kept_source_transparent.
+
+(** the non-caching iterator never reaches the hand-over: whatever is done there, it behaves as
+    the iterator of [model/ImgIter.v] *)
+Theorem C09_imgiter_uncached_ignores_handover :
+  forall (Str Size : Type) (fmt_frame : nat -> Size -> TI.model.ImgIter.res Str) (hash : Size -> Z) (N : nat)
+         (h : bool -> bool) (ops : list (TI.model.ImgIter.op Size)) (s : TI.model.ImgIter.st Str Size),
+    TI.model.ImgIterSrc.traceS (TI.model.ImgIterSrc.file_render fmt_frame) hash N false h s true ops
+    = TI.model.ImgIter.trace fmt_frame hash N false s ops.
+Proof. exact TI.proofs.ImgIterSrcProofs.uncached_ignores_handover. Qed.
+Print Assumptions C09_imgiter_uncached_ignores_handover.
+
+(** THE EXCLUDED DESIGN: closing the source once every frame is cached ([release]).  Three frames,
+    one full pass, then a size change in the second (cached) pass: the caching iterator raises
+    where the non-caching iterator yields the frame at the new size *)
+Theorem C09_imgiter_released_source_refuted :
+  let fmt := TI.proofs.ImgIterProofs.ex_fmt in
+  let s0 := TI.model.ImgIter.init nat (-1) 0 5%nat in
+  let h := TI.proofs.ImgIterSrcProofs.late_history in
+  let run c := TI.model.ImgIterSrc.traceS (TI.model.ImgIterSrc.file_render fmt) Z.of_nat 3 c
+                 TI.model.ImgIterSrc.release s0 true h in
+  run true <> run false
+  /\ nth 5 (run true) (TI.model.ImgIter.OStop, 0, None, true) = (TI.model.ImgIter.ORaise, 1, Some (-1), false)
+  /\ nth 5 (run false) (TI.model.ImgIter.OStop, 0, None, true)
+     = (TI.model.ImgIter.OYield 1 701%nat, 1, Some (-1), true).
+Proof. exact TI.proofs.ImgIterSrcProofs.released_source_refuted. Qed.
+Print Assumptions C09_imgiter_released_source_refuted.
+
+(** the sub-list verdict the correspondence computes on the observed request logs
+    ([model/ImgIterSrcTie.v]) is the relation of [C09_imgiter_cached_requests_sub] *)
+Theorem C09_imgiter_subb_decides :
+  forall a b : list (list (nat * nat)),
+    TI.model.ImgIterSrcTie.all_subb a b = true <-> Forall2 (@TI.model.ImgIterSrc.Sub (nat * nat)) a b.
+Proof. exact TI.proofs.ImgIterSrcTieProofs.all_subb_iff. Qed.
+Print Assumptions C09_imgiter_subb_decides.
